@@ -141,20 +141,22 @@ Section Complete.
     (forall p, In p l -> ok_handler (fst p) (snd p) /\ 3 <= fst p) /\
     (let s1 := adds s l in
      handle_man a s d child = mkSt (hs s1) (proc s1) (links s1) (fins s1 ++ [FPush d child]) (out s1) (bpresent s1) (mpresent s1) true
-                                   (foundL s1) (foundI s1) (dfound s1) (d :: mans s1) (dcfg s1) (dlayers s1)).
+                                   (foundL s1) (foundI s1) (dfound s1) (d :: mans s1) (dcfg s1) (dlayers s1)) /\
+    (forall c, match content a d with NIndex ch => In c (map fst ch) | NImage cfg ls => cfg = Some c \/ In c ls | NBlob => False end -> In c (map fst l)).
   Proof.
     intros H3 Hp. pose proof (Hclosed d Hp H3) as Hcl. unfold handle_man.
     destruct (content a d) as [ch|cfg ls|] eqn:Ec.
     - exists (map (fun p => (fst p, HMan (snd p) true (fst p))) ch). split.
       + intros p Hin. apply in_map_iff in Hin as ([c k] & <- & Hin). cbn. destruct (Hcl c k Hin) as (A & B & C). auto 6.
-      + cbv zeta. unfold adds. rewrite fold_left_map'. reflexivity.
+      + split; [cbv zeta; unfold adds; rewrite fold_left_map'; reflexivity|]. intros c Hc. rewrite map_map. cbn [fst]. exact Hc.
     - destruct Hcl as [Hc Hl].
       exists ((match cfg with Some c => [(c, HBlob c)] | None => [] end) ++ map (fun l => (l, HBlob l)) ls). split.
       + intros p Hin. apply in_app_or in Hin as [Hin|Hin].
         * destruct cfg as [c|]; [|destruct Hin]. destruct Hin as [<-|[]]. cbn. destruct (Hc c eq_refl). auto 6.
         * apply in_map_iff in Hin as (l & <- & Hin). cbn. destruct (Hl l Hin). auto 6.
-      + cbv zeta. unfold adds. rewrite fold_left_app, fold_left_map'. destruct cfg; reflexivity.
-    - exists []. split; [intros p []|]. reflexivity.
+      + split; [cbv zeta; unfold adds; rewrite fold_left_app, fold_left_map'; destruct cfg; reflexivity|].
+        intros c [Hc'|Hc']; rewrite map_app; apply in_or_app; [left; subst cfg; now left|right; rewrite map_map; cbn [fst]; now rewrite map_id].
+    - exists []. split; [intros p []|]. split; [reflexivity|intros c []].
   Qed.
 
   Lemma has_after_del n s1 m : has_h (after_del n s1) m = if Nat.eqb n m then false else has_h s1 m.
@@ -329,7 +331,7 @@ Section Complete.
     intros HW Hg H3 Hp. destruct (w_h s HW d _ Hg) as [_ Hnp].
     assert (Hhas : has_h s d = true) by (apply has_h_get; eauto).
     destruct (no_markers_of_big s d HW Hhas H3) as (N0 & N1 & N2).
-    destruct (handle_man_adds s d child H3 Hp) as (l & Hl & ->). cbv zeta.
+    destruct (handle_man_adds s d child H3 Hp) as (l & Hl & -> & _). cbv zeta.
     destruct (adds_spec l s (fun p Hin => proj1 (Hl p Hin)) (w_h s HW)) as (A1 & A2 & A3 & A4 & A5 & A6 & A7 & A8 & A9 & A10 & A11).
     set (s1 := adds s l) in *.
     assert (Hsmall : forall m, m < 3 -> has_h s1 m = false).
@@ -600,5 +602,339 @@ Section Complete.
       intros x Hx. rewrite Forall_forall in Fl. specialize (Fl _ Hx). exact Fl. }
     destruct Hout as (o0 & <- & N0'). exists (out s' ++ o). rewrite O. cbn [fst]. split; [reflexivity|].
     intros x Hx. apply in_app_or in Hx as [Hx|Hx]; eauto.
+  Qed.
+
+  (* ---------- what the import has delivered: the pushed manifests are closed under their references ---------- *)
+  Definition child (d c : nat) : Prop :=
+    match content a d with NIndex ch => In c (map fst ch) | NImage cfg ls => cfg = Some c \/ In c ls | NBlob => False end.
+
+  Record K (s : st) : Prop := mkK {
+    k_kids : forall d, In d (mans s) -> forall c, child d c -> has_h s c = true \/ In c (proc s);
+    k_out : forall n, In n (proc s) -> 3 <= n -> In n (mans s) \/ In (EvBlob n) (out s);
+    k_bp : forall d, In d (bpresent s) -> In (EvBlob d) (out s);
+    k_fins : forall d, In d (mans s) -> exists ch, In (FPush d ch) (fins s);
+    k_reg : forall d ch, In (FPush d ch) (fins s) -> In d (mans s);
+    k_pre : has_h s 0 = true \/ has_h s 1 = true -> mans s = [];
+    k_mp : forall d, In d (mans s) -> 3 <= d /\ present d
+  }.
+
+  (* a step that leaves the handled manifests alone *)
+  Lemma K_simple s s1 n : K s -> hs s1 = hs s -> proc s1 = proc s -> mans s1 = mans s -> fins s1 = fins s ->
+    (forall e, In e (out s) -> In e (out s1)) -> (forall d, In d (bpresent s1) -> In (EvBlob d) (out s1)) ->
+    (3 <= n -> In n (mans s) \/ In (EvBlob n) (out s1)) ->
+    K (after_del n s1).
+  Proof.
+    intros HK Ehs Eproc Emans Efins Hout Hbp Hn.
+    assert (Hd : forall m, has_h (after_del n s1) m = if Nat.eqb n m then false else has_h s m).
+    { intro m. rewrite has_after_del. unfold has_h. now rewrite Ehs. }
+    constructor; cbn [after_del mans proc out bpresent fins].
+    - rewrite Emans, Eproc. intros d Hd' c Hc. destruct (k_kids s HK d Hd' c Hc) as [H|H]; [|right; now right].
+      destruct (Nat.eq_dec n c) as [->|Hne]; [right; now left|left]. rewrite Hd. destruct (Nat.eqb_spec n c); [contradiction|exact H].
+    - rewrite Emans, Eproc. intros m [<-|Hm] H3; [now apply Hn|]. destruct (k_out s HK m Hm H3); auto.
+    - exact Hbp.
+    - rewrite Emans, Efins. apply (k_fins s HK).
+    - rewrite Emans, Efins. apply (k_reg s HK).
+    - rewrite !Hd, Emans. intros Hp. apply (k_pre s HK). destruct (Nat.eqb n 0), (Nat.eqb n 1); destruct Hp; auto; discriminate.
+    - rewrite Emans. apply (k_mp s HK).
+  Qed.
+
+  Lemma adds_keeps : forall l s m, has_h s m = true -> has_h (adds s l) m = true.
+  Proof. induction l as [|x l IH]; intros s m H; cbn [adds fold_left]; [exact H|]. apply IH. now apply add_h_keeps. Qed.
+  Lemma adds_covers : forall l s p, In p l -> has_h (adds s l) (fst p) = true \/ In (fst p) (proc s).
+  Proof.
+    induction l as [|x l IH]; intros s p Hp; [destruct Hp|]. cbn [adds fold_left]. fold (adds (add_h s (fst x) (snd x)) l).
+    destruct (add_h_other s (fst x) (snd x)) as (A1 & _).
+    destruct Hp as [->|Hp]; [|rewrite <- A1; now apply IH].
+    destruct (add_h_cases s (fst p) (snd p)) as [[E [H|H]]|(E & _ & _)].
+    - right. now apply memn_In.
+    - left. apply adds_keeps. now rewrite E.
+    - left. apply adds_keeps. rewrite E, has_h_upd_hs, hget_app. destruct (hget (fst p) (hs s)); [reflexivity|]. cbn. now rewrite Nat.eqb_refl.
+  Qed.
+
+  Lemma blob_K s d n s1 : K s -> n = d -> 3 <= d -> import_blob a s d d false = inl s1 -> K (after_del n s1).
+  Proof.
+    intros HK -> H3. unfold import_blob. destruct (memn d (bpresent s)) eqn:Em.
+    - intro H; inversion H; subst s1. apply (K_simple s s d HK); auto; [apply (k_bp s HK)|]. intros _. right. apply (k_bp s HK). now apply memn_In.
+    - rewrite Nat.eqb_refl. intro H; inversion H; subst s1; clear H. apply (K_simple s _ d HK); cbn [hs proc mans fins out bpresent]; auto.
+      + intros e He. apply in_or_app. now left.
+      + intros x [<-|Hx]; apply in_or_app; [right; now left|left; now apply (k_bp s HK)].
+      + intros _. right. apply in_or_app. right. now left.
+  Qed.
+
+  Lemma man_K s d k child : W s -> K s -> hget d (hs s) = Some (HMan k child d) -> 3 <= d -> present d ->
+    K (after_del d (handle_man a s d child)).
+  Proof.
+    intros HW HK Hg H3 Hp.
+    assert (Hhas : has_h s d = true) by (apply has_h_get; eauto).
+    destruct (no_markers_of_big s d HW Hhas H3) as (N0 & N1 & N2).
+    destruct (handle_man_adds s d child H3 Hp) as (l & Hl & -> & Hcov). cbv zeta.
+    destruct (adds_spec l s (fun p Hin => proj1 (Hl p Hin)) (w_h s HW)) as (A1 & A2 & A3 & A4 & A5 & A6 & A7 & A8 & A9 & A10 & A11).
+    set (s1 := adds s l) in *.
+    assert (Hsmall : forall m, m < 3 -> has_h s1 m = false).
+    { intros m Hm. destruct (has_h s1 m) eqn:E; [|reflexivity]. exfalso. destruct (A11 m E) as [H|H].
+      - destruct m as [|[|[|m]]]; try lia; congruence.
+      - apply in_map_iff in H as (p & <- & Hin). destruct (Hl p Hin). lia. }
+    assert (Hcase : forall c, has_h s1 c = true \/ In c (proc s) -> has_h (after_del d (mkSt (hs s1) (proc s1) (links s1) (fins s1 ++ [FPush d child]) (out s1) (bpresent s1) (mpresent s1) true
+                                   (foundL s1) (foundI s1) (dfound s1) (d :: mans s1) (dcfg s1) (dlayers s1))) c = true \/ In c (d :: proc s)).
+    { intros c [H|H]; [|right; now right]. destruct (Nat.eq_dec d c) as [->|Hne]; [right; now left|left].
+      rewrite has_after_del. destruct (Nat.eqb_spec d c); [contradiction|exact H]. }
+    constructor; cbn [after_del mans proc out bpresent fins].
+    - rewrite A2, A9. intros d' [<-|Hd'] c Hc.
+      + apply Hcase. apply Hcov in Hc. apply in_map_iff in Hc as (p & <- & Hin). apply (adds_covers l s p Hin).
+      + apply Hcase. destruct (k_kids s HK d' Hd' c Hc) as [H|H]; [left; now apply A10|now right].
+    - rewrite A2, A9, A5. intros m [<-|Hm] Hm3; [left; now left|]. destruct (k_out s HK m Hm Hm3) as [H|H]; [left; now right|now right].
+    - intros x Hx. unfold s1 in *. assert (Eb : bpresent (adds s l) = bpresent s).
+      { clear. induction l as [|p l IH] in s |- *; cbn [adds fold_left]; [reflexivity|]. fold (adds (add_h s (fst p) (snd p)) l). rewrite IH. apply add_h_other. }
+      rewrite Eb in Hx. rewrite A5. now apply (k_bp s HK).
+    - rewrite A9, A4. intros d' [<-|Hd']; [exists child; apply in_or_app; right; now left|]. destruct (k_fins s HK d' Hd') as (ch & Hch). exists ch. apply in_or_app. now left.
+    - rewrite A9, A4. intros d' ch Hin. apply in_app_or in Hin as [Hin|[Hin|[]]]; [right; now apply (k_reg s HK d' ch)|inversion Hin; now left].
+    - rewrite !has_after_del. replace (Nat.eqb d 0) with false by (symmetry; apply Nat.eqb_neq; lia). replace (Nat.eqb d 1) with false by (symmetry; apply Nat.eqb_neq; lia).
+      change (has_h s1 0 = true \/ has_h s1 1 = true -> d :: mans s1 = []). rewrite (Hsmall 0), (Hsmall 1) by lia. intros [H|H]; discriminate.
+    - rewrite A9. intros d' [<-|Hd']; [auto|now apply (k_mp s HK)].
+  Qed.
+
+  Lemma marker_K s n s' s1 : W s -> K s -> has_h s n = true -> n = 0 \/ n = 1 ->
+    hs s' = hs s -> proc s' = proc s -> mans s' = mans s -> fins s' = fins s -> out s' = out s -> bpresent s' = bpresent s ->
+    (if has_h s (1 - n) then inl s' else oci_handler a q s') = inl s1 -> K (after_del n s1).
+  Proof.
+    intros HW HK Hn Hn01 Ehs Eproc Emans Efins Eout Ebp.
+    assert (Hpre : has_h s 0 = true \/ has_h s 1 = true) by (destruct Hn01; subst n; auto).
+    destruct (w_pre s HW Hpre) as (P1 & P2 & P3). pose proof (k_pre s HK Hpre) as Hm0.
+    assert (Hh1 : forall m, has_h s' m = has_h s m) by (intro m; unfold has_h; now rewrite Ehs).
+    destruct (has_h s (1 - n)) eqn:Eo.
+    - intro H; inversion H; subst s1. apply (K_simple s s' n HK); auto.
+      + rewrite Eout. auto.
+      + rewrite Ebp, Eout. apply (k_bp s HK).
+      + intro H3. destruct Hn01; subst n; lia.
+    - rewrite (oci_result s'); [|intros m Hm; apply P1; now rewrite <- Hh1|intros m Hm; rewrite Eproc in Hm; now apply P2].
+      intro H; inversion H; subst s1; clear H.
+      constructor; cbn [after_del mans proc out bpresent fins]; rewrite ?Emans, ?Hm0, ?Eproc, ?Eout, ?Ebp, ?Efins, ?P3.
+      + intros d [].
+      + intros m [<-|Hm] H3; [destruct Hn01; subst n; lia|specialize (P2 m Hm); lia].
+      + apply (k_bp s HK).
+      + intros d [].
+      + intros d ch [H|[]]; discriminate.
+      + reflexivity.
+      + intros d [].
+  Qed.
+
+  Lemma step_K s n h c s1 : W s -> K s -> hget n (hs s) = Some h -> In (EFile n c) es -> run_h a q s h c = inl s1 -> K (after_del n s1).
+  Proof.
+    intros HW HK Hg He. destruct (w_h s HW n h Hg) as [Hok Hnp].
+    assert (Hhas : has_h s n = true) by (apply has_h_get; eauto).
+    destruct h as [| | |k child d|d| |ps]; cbn [ok_handler] in Hok; try contradiction.
+    - subst n. cbn [run_h run_h_gen]. rewrite Hlay, (w_fi s HW). intro E.
+      apply (marker_K s 0 (set_found s true (negb (has_h s 1))) s1 HW HK Hhas (or_introl eq_refl)); try reflexivity.
+      cbn [Nat.sub]. destruct (has_h s 1); cbn [negb] in *; exact E.
+    - subst n. cbn [run_h run_h_gen]. rewrite (w_fl s HW). intro E.
+      apply (marker_K s 1 (set_found s (negb (has_h s 0)) true) s1 HW HK Hhas (or_intror eq_refl)); try reflexivity.
+      cbn [Nat.sub]. destruct (has_h s 0); cbn [negb] in *; exact E.
+    - subst n. cbn [run_h run_h_gen]. intro H; inversion H; subst s1. apply (K_simple s _ 2 HK); cbn; auto; [apply (k_bp s HK)|lia].
+    - destruct Hok as (-> & H3 & Hp & Hk). assert (c = d) by (apply Hself; auto). subst c.
+      cbn [run_h run_h_gen]. rewrite Nat.eqb_refl. cbn [andb].
+      destruct k.
+      + specialize (Hk eq_refl). destruct (content a d) eqn:Ec; [| |congruence]; (intro H; inversion H; subst s1; now apply (man_K s d KMan child)).
+      + now apply blob_K.
+      + destruct (content a d) eqn:Ec; [| |now apply blob_K]; (intro H; inversion H; subst s1; now apply (man_K s d KUnk child)).
+      + now apply blob_K.
+    - destruct Hok as (-> & H3 & Hp). assert (c = d) by (apply Hself; auto). subst c. cbn [run_h run_h_gen]. now apply blob_K.
+  Qed.
+
+  (* through an entry, a pass, the re-scans *)
+  Lemma entry_K s n c : W s -> K s -> In (EFile n c) es ->
+    match run_list a q s [n] c false with PErr _ => True | PDone s' => K s' | PCont s' => K s' end.
+  Proof.
+    intros HW HK He. cbn [run_list]. destruct (hget n (hs s)) as [h|] eqn:Eg; [|exact HK].
+    destruct (step_W s n h c HW Eg He) as (s1 & E & _). fold (run_h a q s h c). rewrite E. fold (after_del n s1).
+    pose proof (step_K s n h c s1 HW HK Eg He E) as HK2.
+    destruct (hs (after_del n s1)); [exact HK2|]. cbn [run_list]. exact HK2.
+  Qed.
+  Lemma pass_K : forall r s, (forall e, In e r -> In e es) -> W s -> K s ->
+    match pass a q s r with PErr _ => True | PDone s' => K s' | PCont s' => K s' end.
+  Proof.
+    induction r as [|e r IH]; intros s Hr HW HK; cbn [pass]; [exact HK|].
+    destruct (Hfiles e (Hr e (or_introl eq_refl))) as (n & c & ->).
+    rewrite (link_list_nil s n (w_links s HW)). cbn [app].
+    pose proof (entry_W s n c HW (Hr _ (or_introl eq_refl))) as HE.
+    pose proof (entry_K s n c HW HK (Hr _ (or_introl eq_refl))) as HEK.
+    destruct (run_list a q s [n] c false) as [s2|s2|err]; [|exact HEK|exact I].
+    destruct HE as (HW2 & _). apply (IH s2 (fun e He => Hr e (or_intror He)) HW2 HEK).
+  Qed.
+  Lemma K_upd_added s b : K s -> K (upd_added s b).
+  Proof. intros [H1 H2 H3 H4 H5 H6 H7]. constructor; auto. Qed.
+
+  Lemma read_all_K : forall k s s', W s -> K s -> read_all k a q s = Some (inl s') -> K s'.
+  Proof.
+    induction k as [|k IH]; intros s s' HW HK; cbn [read_all].
+    - destruct (hs s); [intro H; inversion H; now subst|discriminate].
+    - destruct (hs s) eqn:Ehs; [intro H; inversion H; now subst|].
+      pose proof (pass_W es (upd_added s false) (fun e He => He) (W_upd_added s false HW)) as HP.
+      pose proof (pass_K es (upd_added s false) (fun e He => He) (W_upd_added s false HW) (K_upd_added s false HK)) as HPK.
+      destruct (pass a q (upd_added s false) es) as [s1|s1|err]; [| |discriminate].
+      + destruct (added s1); [|discriminate]. apply IH; [apply HP|exact HPK].
+      + intro H; inversion H; now subst.
+  Qed.
+
+  Lemma K_init : K (st0 [] []).
+  Proof. constructor; cbn; auto; try (intros ? []); intros ? ? []. Qed.
+
+  (* the read phase does not touch the target's manifests *)
+  Lemma adds_mp : forall l s, mpresent (adds s l) = mpresent s.
+  Proof. induction l as [|p l IH]; intro s; cbn [adds fold_left]; [reflexivity|]. fold (adds (add_h s (fst p) (snd p)) l). rewrite IH. apply add_h_other. Qed.
+  Lemma run_h_mp s h c s1 : run_h a q s h c = inl s1 -> mpresent s1 = mpresent s.
+  Proof.
+    assert (Hoci : forall s0 s2, oci_handler a q s0 = inl s2 -> mpresent s2 = mpresent s0).
+    { intros s0 s2. unfold oci_handler. match goal with |- context [match ?p with Some _ => _ | None => _ end] => destruct p as [[d k]|] end; [|discriminate].
+      intro H; inversion H. cbn [mpresent]. destruct (add_h_other (upd_hs s0 (hdel N_DOCKER (hs s0))) d (HMan k false d)) as (_ & _ & _ & _ & _ & _ & _ & _ & _ & E). exact E. }
+    assert (Hman : forall d child, mpresent (handle_man a s d child) = mpresent s).
+    { intros d child. unfold handle_man. cbn [mpresent].
+      assert (F1 : forall ch s0, mpresent (fold_left (fun s' (p : nat * cls) => add_h s' (fst p) (HMan (snd p) true (fst p))) ch s0) = mpresent s0)
+        by (induction ch as [|p ch IH]; intro s0; cbn; [reflexivity|rewrite IH; apply add_h_other]).
+      assert (F2 : forall ls s0, mpresent (fold_left (fun s'' l => add_h s'' l (HBlob l)) ls s0) = mpresent s0)
+        by (induction ls as [|p ls IH]; intro s0; cbn; [reflexivity|rewrite IH; apply add_h_other]).
+      destruct (content a d) as [ch|cfg layers|]; [apply F1| |reflexivity]. rewrite F2. destruct cfg; [apply add_h_other|reflexivity]. }
+    assert (Hblob : forall d c0 dr s2, import_blob a s d c0 dr = inl s2 -> mpresent s2 = mpresent s).
+    { intros d c0 dr s2. unfold import_blob. destruct (memn d (bpresent s)); [intro H; inversion H; reflexivity|]. destruct (if dr then _ else _); [|discriminate]. intro H; inversion H; reflexivity. }
+    destruct h as [| | |k child d|d| |ps]; cbn [run_h run_h_gen].
+    - destruct (layout_ok a); [|intro H; inversion H; reflexivity]. destruct (foundI s); [intro H; apply Hoci in H; exact H|intro H; inversion H; reflexivity].
+    - destruct (foundL s); [intro H; apply Hoci in H; exact H|intro H; inversion H; reflexivity].
+    - intro H; inversion H; reflexivity.
+    - destruct k; try (apply Hblob).
+      + destruct (_ && _); [|discriminate]. intro H; inversion H. apply Hman.
+      + destruct (_ && _); [intro H; inversion H; apply Hman|apply Hblob].
+    - apply Hblob.
+    - intro H; inversion H; reflexivity.
+    - intro H; inversion H; reflexivity.
+  Qed.
+  Lemma run_list_mp : forall names s c used, match run_list a q s names c used with PCont s' | PDone s' => mpresent s' = mpresent s | PErr _ => True end.
+  Proof.
+    induction names as [|n names IH]; intros s c used; cbn [run_list]; [reflexivity|].
+    destruct (hget n (hs s)) as [h|]; [|apply IH]. destruct used; [reflexivity|].
+    destruct (run_h a q s h c) as [s1|e] eqn:Eh; [|exact I]. apply run_h_mp in Eh.
+    match goal with |- context [match hs ?x with [] => _ | _ => _ end] => set (s2 := x) end.
+    assert (E2 : mpresent s2 = mpresent s) by (unfold s2; cbn; exact Eh).
+    destruct (hs s2); [exact E2|]. specialize (IH s2 c true). destruct (run_list a q s2 names c true); try exact I; congruence.
+  Qed.
+  Lemma pass_mp : forall r s, match pass a q s r with PCont s' | PDone s' => mpresent s' = mpresent s | PErr _ => True end.
+  Proof.
+    induction r as [|[n c|n t] r IH]; intro s; cbn [pass]; [reflexivity| |].
+    - destruct (link_list s n) as [l|]; [|exact I]. pose proof (run_list_mp (l ++ [n]) s c false) as H.
+      destruct (run_list a q s (l ++ [n]) c false) as [s1|s1|e]; auto. specialize (IH s1). destruct (pass a q s1 r); try exact I; congruence.
+    - destruct (memn n (lget t (links s))); [apply IH|].
+      match goal with |- context [if added ?x then _ else _] => set (s1 := x) end.
+      assert (E1 : mpresent s1 = mpresent s) by reflexivity.
+      destruct (added s1).
+      + specialize (IH s1). destruct (pass a q s1 r); try exact I; congruence.
+      + destruct (link_list s1 t) as [l|]; [|exact I].
+        match goal with |- match pass a q ?x r with _ => _ end => assert (E2 : mpresent x = mpresent s) by (destruct (existsb _ _); reflexivity); specialize (IH x); destruct (pass a q x r) end; try exact I; congruence.
+  Qed.
+  Lemma read_all_mp : forall k s s', read_all k a q s = Some (inl s') -> mpresent s' = mpresent s.
+  Proof.
+    induction k as [|k IH]; intros s s'; cbn [read_all].
+    - destruct (hs s); [intro H; inversion H; reflexivity|discriminate].
+    - destruct (hs s); [intro H; inversion H; reflexivity|].
+      pose proof (pass_mp es (upd_added s false)) as Hp. destruct (pass a q (upd_added s false) es) as [s1|s1|e]; [| |discriminate].
+      + destruct (added s1); [|discriminate]. intro H. apply IH in H. rewrite H, Hp. reflexivity.
+      + intro H; inversion H; subst. exact Hp.
+  Qed.
+
+  (* ---------- the deferred pushes deliver every handled manifest ---------- *)
+  Variable rank : nat -> nat.
+  Hypothesis rank_dec : forall d ch c, content a d = NIndex ch -> In c (map fst ch) -> rank c < rank d.
+  Hypothesis rank_fuel : forall d, present d -> rank d < length es + 2.
+
+  Lemma after_In P o x : In x (after P o) <-> In x P \/ In (EvPut x) o \/ In (EvTag x) o.
+  Proof.
+    revert P. induction o as [|e o IH]; intro P; cbn; [tauto|]. fold (after (after1 P e) o). rewrite IH.
+    destruct e; cbn; split; intros H; repeat (destruct H as [H|H]); auto; try (inversion H; subst; auto); try discriminate.
+  Qed.
+
+  Definition put_of (reg : list nat) (d : nat) (e : ev) : Prop := exists x, e = EvPut x /\ (x = d \/ In x reg).
+  Lemma put_man_out2 reg d s : exists o, out (put_man d s) = out s ++ o /\ Forall (put_of reg d) o.
+  Proof. unfold put_man. destruct (memn d (mpresent s)); [exists []; rewrite app_nil_r; auto|exists [EvPut d]; split; [reflexivity|constructor; [exists d; auto|constructor]]]. Qed.
+  Lemma put_of_weaken reg d d' e : In d reg -> put_of reg d e -> put_of reg d' e.
+  Proof. intros Hd (x & E & [E2|H]); subst; [exists d|exists x]; auto. Qed.
+  Lemma fpush_out2 : forall fuel reg d sd, exists o, out (fst (fpush fuel a reg d sd)) = out (fst sd) ++ o /\ Forall (put_of reg d) o.
+  Proof.
+    induction fuel as [|f IH]; intros reg d sd; cbn [fpush]; [exists []; rewrite app_nil_r; auto|].
+    destruct (memn d (snd sd)); [exists []; rewrite app_nil_r; auto|]. cbn [fst snd].
+    assert (H : forall ch acc, exists o, out (fst (fold_left (fun acc (p : nat * cls) => if memn (fst p) reg then fpush f a reg (fst p) acc else acc) ch acc)) = out (fst acc) ++ o /\ Forall (put_of reg d) o).
+    { induction ch as [|p ch IHc]; intro acc; cbn [fold_left]; [exists []; rewrite app_nil_r; auto|].
+      destruct (IHc (if memn (fst p) reg then fpush f a reg (fst p) acc else acc)) as (o2 & E2 & N2).
+      destruct (memn (fst p) reg) eqn:Em.
+      - destruct (IH reg (fst p) acc) as (o1 & E1 & N1). exists (o1 ++ o2). rewrite E2, E1, app_assoc. split; [reflexivity|].
+        apply Forall_app. split; [|exact N2]. eapply Forall_impl; [|exact N1]. intros e He. apply (put_of_weaken reg (fst p)); [now apply memn_In|exact He].
+      - exists o2. auto. }
+    destruct (content a d) as [ch| |].
+    - destruct (H ch (fst sd, d :: snd sd)) as (o1 & E1 & N1).
+      destruct (put_man_out2 reg d (fst (fold_left (fun acc (p : nat * cls) => if memn (fst p) reg then fpush f a reg (fst p) acc else acc) ch (fst sd, d :: snd sd)))) as (o2 & E2 & N2).
+      exists (o1 ++ o2). rewrite E2, E1. cbn [fst]. rewrite app_assoc. split; [reflexivity|]. apply Forall_app; auto.
+    - cbn [fst]. apply put_man_out2.
+    - cbn [fst]. apply put_man_out2.
+  Qed.
+
+  Lemma run_fins_all reg s0 fuel : forall l sd, (forall x, In x l -> exists d ch, x = FPush d ch /\ In d reg /\ rank d < fuel) ->
+    FInv a reg s0 (fst sd) (snd sd) [] ->
+    exists sd', (forall tail, run_fins_from fuel a reg (l ++ tail) sd = run_fins_from fuel a reg tail sd') /\
+                FInv a reg s0 (fst sd') (snd sd') [] /\ incl (mpresent (fst sd)) (mpresent (fst sd')) /\
+                (forall d ch, In (FPush d ch) l -> In d (mpresent (fst sd'))) /\
+                exists o, out (fst sd') = out (fst sd) ++ o /\ Forall (fun e => exists x, e = EvPut x /\ In x reg) o.
+  Proof.
+    induction l as [|f l IH]; intros sd Hl HI.
+    - exists sd. split; [reflexivity|]. split; [exact HI|]. split; [intros x Hx; exact Hx|]. split; [intros d ch []|]. exists []. rewrite app_nil_r. auto.
+    - destruct (Hl f (or_introl eq_refl)) as (d & ch & -> & Hreg & Hrk).
+      destruct sd as [s1 d1]. cbn [fst snd] in HI.
+      destruct (fpush_inv a reg rank rank_dec s0 fuel d s1 d1 [] Hrk (fun x (H : In x []) => match H with end) HI) as (F1 & F2 & F3 & F4).
+      destruct (IH (fpush fuel a reg d (s1, d1))) as (sd' & E & FI & Inc & All & o & O & N); [intros x Hx; apply Hl; now right|exact F1|].
+      exists sd'. split; [intro tail; cbn [app run_fins_from]; apply E|]. split; [exact FI|]. split; [intros x Hx; apply Inc, F3, Hx|].
+      split.
+      + intros d' ch' [Hin|Hin]; [inversion Hin; subst; apply Inc, F2|now apply (All d' ch')].
+      + destruct (fpush_out2 fuel reg d (s1, d1)) as (o1 & O1 & N1). exists (o1 ++ o). rewrite O, O1, app_assoc. split; [reflexivity|].
+        apply Forall_app. split; [|exact N]. eapply Forall_impl; [|exact N1]. intros e (x & Ee & [Ex|Hx]); subst; eauto.
+  Qed.
+
+  Theorem import_delivers_closure : exists evs, import (length es + 2) a q [] [] = Some (inl (evs ++ [EvTag root])) /\
+    In (EvPut root) evs /\ (forall d, In (EvPut d) evs -> forall c, child d c -> In (EvPut c) evs \/ In (EvBlob c) evs).
+  Proof.
+    destruct (read_all_W (length es + 2) (st0 [] []) W_init) as (s' & E & HW' & Hh); [cbn; lia|].
+    pose proof (read_all_K _ _ _ W_init K_init E) as HK'. pose proof (read_all_mp _ _ _ E) as Hmp. cbn in Hmp.
+    pose proof (read_all_ext a q _ _ _ E) as (l0 & El0 & Fl0). cbn in El0.
+    unfold import. rewrite E.
+    assert (N0 : has_h s' 0 = false) by (unfold has_h; now rewrite Hh).
+    assert (N1 : has_h s' 1 = false) by (unfold has_h; now rewrite Hh).
+    destruct (w_fins s' HW' N0 N1) as (r & R1 & R2 & R3).
+    assert (Rm : In root (mans s')) by (destruct R3 as [R3|R3]; [exact R3|unfold has_h in R3; rewrite Hh in R3; discriminate]).
+    unfold run_fins. rewrite R1. cbn [rev].
+    set (reg := registered (rev r ++ [FTag root])).
+    assert (Hreg : forall d, In d reg <-> In d (mans s')).
+    { intro d. unfold reg, registered. rewrite in_flat_map. split.
+      - intros (f & Hf & Hd). apply in_app_or in Hf as [Hf|[<-|[]]]; [|destruct Hd]. apply in_rev in Hf. destruct f as [x|x ch]; [destruct Hd|]. destruct Hd as [<-|[]].
+        apply (k_reg s' HK' x ch). rewrite R1. now right.
+      - intro Hd. destruct (k_fins s' HK' d Hd) as (ch & Hch). rewrite R1 in Hch. destruct Hch as [Hch|Hch]; [discriminate|].
+        exists (FPush d ch). split; [apply in_or_app; left; now apply in_rev in Hch || (apply -> in_rev; exact Hch)|now left]. }
+    assert (H0 : FInv a reg s' (fst (s', @nil nat)) (snd (s', @nil nat)) []).
+    { exists []. cbn. rewrite app_nil_r. repeat split; auto. }
+    destruct (run_fins_all reg s' (length es + 2) (rev r) (s', [])) as (sd' & Ef & FI & _ & All & o & O & N); [|exact H0|].
+    { intros x Hx. apply in_rev in Hx. destruct x as [d|d ch]; [exfalso; now apply (R2 d)|]. exists d, ch. split; [reflexivity|].
+      assert (Hm : In d (mans s')) by (apply (k_reg s' HK' d ch); rewrite R1; now right). split; [now apply Hreg|]. apply rank_fuel. apply (k_mp s' HK' d Hm). }
+    rewrite (Ef [FTag root]). cbn [run_fins_from].
+    destruct FI as (o' & O' & _ & Mp & _ & Mn). cbn [fst] in O. rewrite O in O'. apply app_inv_head in O'. subst o'.
+    rewrite Mn. apply memn_In in Rm. rewrite Rm. cbn [out]. apply memn_In in Rm.
+    exists (out s' ++ o). rewrite O. split; [reflexivity|].
+    assert (Hput : forall d, In d (mans s') -> In (EvPut d) o).
+    { intros d Hd. destruct (k_fins s' HK' d Hd) as (ch & Hch). rewrite R1 in Hch. destruct Hch as [Hch|Hch]; [discriminate|].
+      assert (Hin : In d (mpresent (fst sd'))) by (apply (All d ch); apply -> in_rev; exact Hch).
+      rewrite Mp, Hmp in Hin. apply after_In in Hin as [[]|[H|H]]; [exact H|].
+      exfalso. rewrite Forall_forall in N. destruct (N _ H) as (x & Hx & _). discriminate. }
+    split; [apply in_or_app; right; now apply Hput|].
+    intros d Hd c Hc. apply in_app_or in Hd as [Hd|Hd].
+    - exfalso. rewrite El0 in Hd. rewrite Forall_forall in Fl0. apply (Fl0 _ Hd).
+    - rewrite Forall_forall in N. destruct (N _ Hd) as (x & Hx & Hxr). inversion Hx; subst x. apply Hreg in Hxr.
+      destruct (k_mp s' HK' d Hxr) as (Hd3 & Hdp).
+      assert (Hc3 : 3 <= c).
+      { pose proof (Hclosed d Hdp Hd3) as Hcl. unfold child in Hc. destruct (content a d) as [ch|cfg ls|]; [|destruct Hcl as [Hc1 Hc2]; destruct Hc as [Hc|Hc]; [now apply Hc1|now apply Hc2]|destruct Hc].
+        apply in_map_iff in Hc as ([c' k] & <- & Hin). now apply (Hcl c' k). }
+      destruct (k_kids s' HK' d Hxr c Hc) as [H|H]; [unfold has_h in H; rewrite Hh in H; discriminate|].
+      destruct (k_out s' HK' c H Hc3) as [Hm|Hb]; [left; apply in_or_app; right; now apply Hput|right; apply in_or_app; now left].
   Qed.
 End Complete.
